@@ -193,15 +193,11 @@ func Solve(vc *VC, opts SolveOpts) error {
 				if err == nil && o.Status != want && !(o.Cover && o.Status == "unknown") && !opts.NoEscalate {
 					// escalate: all solvers, longer timeout, models
 					err = solveOne(vc, o, fb+".x", Solvers, opts.TimeoutMs*3, need2, true)
-				} else if err == nil && need2 && o.Status == "unsat" && !strings.Contains(o.Solver, "+") {
-					// second opinion (thorough tier): give the other solvers 10 s; an obligation one
-					// solver discharged stays discharged if they cannot confirm it in that time
-					first := *o
-					err = solveOne(vc, o, fb+".x", Solvers, 10000, true, false)
-					if err == nil && o.Status != "unsat" && o.Status != "sat" {
-						*o = first
-					}
 				}
+				// (thorough tier) the first round already ran both solvers to completion or to
+				// the first timeout: an answer both gave is recorded as "a+b"; one that only one
+				// solver gave within that time stays discharged by that solver alone.  A further
+				// round for the unconfirmed ones cost 10 s x 3 solvers each and confirmed few.
 				if err == nil && o.Status != "sat" {
 					ce := cacheEntry{Status: o.Status, Solver: o.Solver, TimeS: o.TimeS}
 					if need2 {
